@@ -46,9 +46,15 @@ type vfConn struct {
 	closeErr  bool  // Close reports an error (connection already broken underneath)
 	reqs      []int // len(b) of every Read call
 	before    []int // bytes delivered before that call
+	// deadlines: a Read without a deadline can block for ever when the remote stays silent
+	deadlineSet, readDeadlineSet bool
+	readsWithoutDeadline         int
 }
 
 func (c *vfConn) Read(b []byte) (int, error) {
+	if !c.deadlineSet && !c.readDeadlineSet {
+		c.readsWithoutDeadline++
+	}
 	c.reqs = append(c.reqs, len(b))
 	c.before = append(c.before, c.total)
 	if c.readsLeft == 0 || vf.Bool() {
@@ -88,8 +94,8 @@ func (c *vfConn) Close() error {
 }
 func (c *vfConn) LocalAddr() net.Addr                { return nil }
 func (c *vfConn) RemoteAddr() net.Addr               { return nil }
-func (c *vfConn) SetDeadline(t time.Time) error      { return nil }
-func (c *vfConn) SetReadDeadline(t time.Time) error  { return nil }
+func (c *vfConn) SetDeadline(t time.Time) error      { c.deadlineSet = !t.IsZero(); return nil }
+func (c *vfConn) SetReadDeadline(t time.Time) error  { c.readDeadlineSet = !t.IsZero(); return nil }
 func (c *vfConn) SetWriteDeadline(t time.Time) error { return nil }
 
 // VfLink is a recording Link for harnesses of other packages.
